@@ -669,6 +669,7 @@ type Sample struct {
 	Decisions int         `json:"decisions"`
 	Outcome   string      `json:"outcome"`
 	PathCond  []string    `json:"path_condition,omitempty"`
+	Observed  []string    `json:"observed,omitempty"`
 }
 
 type Value = value
@@ -776,8 +777,8 @@ func (pg *Program) Explore(fnName string, pkgPath string, opt Options) (*Result,
 					res.Failures = append(res.Failures, f)
 				}
 			}
-			if len(res.Samples) < 3 && outcome.kind == "completed" && (len(p.log) > 0 || res.Paths == 1) {
-				s := Sample{Inputs: p.inputsWithModel(p.anyModelSafe()), Decisions: len(p.log), Outcome: outcome.kind}
+			if len(res.Samples) < 4 && outcome.kind == "completed" && len(p.failures) == 0 && (len(p.log) > 0 || res.Paths == 1) {
+				s := Sample{Inputs: p.inputsWithModel(p.anyModelSafe()), Decisions: len(p.log), Outcome: outcome.kind, Observed: p.observed}
 				for i, c := range p.pc {
 					if i >= 6 {
 						break
